@@ -36,6 +36,11 @@ type FuncInfo struct {
 	summaryDepth  int
 	byID          map[string]ssa.Instruction
 	freshVisiting map[string]bool
+	phiMode       int
+	phiB          map[*ssa.Phi][2]int64
+	phiRels       map[*ssa.Phi][]*phiRel
+	phiPass       int
+	candTerms     []*Term
 }
 
 // MemDef is one instruction that may write a class.
